@@ -45,6 +45,12 @@ LOCAL JMk(e) ==
     ELSE /\ e.z \in {"none", "panic"}
          /\ e.k = e.z
 
+(* a constructor from a primitive wider than the type: when the argument does not fit it may refuse *)
+(* (panic) but must never produce an invalid wrapped value                                           *)
+LOCAL JMkFit(e) ==
+  IF Fits(e.x, e.bits) THEN JMk(e)
+  ELSE e.k = "panic" \/ (e.k = "ok" /\ Valid(e.w, e.v))
+
 LOCAL JMapObs(e) ==
   /\ e.k = "ok"
   /\ Valid(e.w, e.v)
@@ -131,6 +137,7 @@ LOCAL JWiden(e) ==
 
 JudgeC12(e, rg) ==
   CASE e.op = "mk"     -> JMk(e)
+    [] e.op = "mkfit"  -> JMkFit(e)
     [] e.op = "mapobs" -> JMapObs(e)
     [] e.op = "const"  -> JConst(e)
     [] e.op = "select" -> JSelect(e)
